@@ -21,3 +21,71 @@ PROPS["C18"] = dict(
                  "are float facts no SMT contract in reach decides: they are checked by the BOUNDED driver against float64 definitions."),
     assumptions=["contracts of arr_union/arr_intersect/arr_unique assumed (numpy one-liners), checked at run time by the bounded driver"],
 )
+
+PROPS["C09"] = dict(
+    functions=[M + "contract_pair", M + "contract_and_count_pairs", M + "bpe_encode", M + "count_pairs"],
+    bounded=True,
+    level="proof",
+    level_text=("Proof (all inputs, unbounded) for the kernels that make the encoding lossless: contract_pair and contract_and_count_pairs satisfy a "
+                "witness postcondition (ghost array src: every output code is either the input code at src[j] or new_code standing for the pair at "
+                "src[j], src[j]+1; src[0]=0, src[len(out)]=len(in); greedy left-to-right, non-overlapping), are memory safe and never read an unbound "
+                "variable; bpe_encode replays the merge list with these kernels. Lemma (stated, standard): the witness implies expand(out)==in. "
+                "The training loop bpe_train (tie-breaking, pruning, budget) and the tokens/matrix outputs are NOT under contract: they are "
+                "covered by the bounded driver (exhaustive small corpora over {a,b})."),
+    level_note=("Trusted: pyvc engine, z3; integers mathematical (numba uint32 locals ignored); bpe_train, pruning_max_freq_pair and the estimator "
+                "glue are outside the deductive part (bounded only)."),
+    technique="contract-based deductive verification (pyvc: witness postcondition via ghost state, loop invariants, z3) + exhaustive bounded run-time checks",
+    explanation="see level_text",
+    assumptions=["witness => lossless decoding is a stated lemma (induction over the output), not machine-checked"],
+)
+
+SW = "vectorizers/transformers/sliding_windows.py::"
+WK = "vectorizers/_window_kernels.py::"
+PROPS["C19"] = dict(
+    functions=[SW + "sliding_windows", WK + "difference_kernel"],
+    bounded=True,
+    level="other",
+    level_text=("Deductive (all inputs, unbounded, integer arithmetic): sliding_windows returns exactly ceil((L' - width + 1)/stride) rows "
+                "(as q*stride >= a > (q-1)*stride), every window slice and every sampled index is in range (so nothing outside the padded "
+                "sequence is read), the padding copy is in range, the sample is applied on every path; difference_kernel has one row per valid "
+                "difference and writes in range. Bounded: the interpretation of window_sample in SlidingWindowTransformer.fit (isinstance / "
+                "np.issubdtype dispatch is outside the verifier's subset), kernels and multivariate input, against sliding_window_view-style "
+                "reference on an exhaustive small scope."),
+    level_note="Trusted: pyvc, z3 (nonlinear integer goals), numpy slicing contracts; the kernel parameter is assumed pure with the declared output size; multivariate case bounded only.",
+    technique="contract-based deductive verification (pyvc VCs over integers, z3) + exhaustive bounded comparison with a reference",
+    explanation="see level_text",
+)
+
+CU = "vectorizers/coo_utils.py::"
+_KERNELS = [WK + k for k in ("window_at_index", "flat_kernel", "harmonic_kernel", "geometric_kernel", "update_kernel", "timed_flat_kernel",
+                              "timed_geometric_kernel", "fixed_window_radii")]
+_COO = [CU + k for k in ("coo_append", "coo_sum_duplicates", "merge_sum_duplicates", "merge_all_sum_duplicates", "coo_increase_mem")]
+_TECH = "contract-based deductive verification (pyvc VC generation, z3/cvc5) with bounded run-time reference checks for the clauses no contract decides"
+
+PROPS["C03"] = dict(
+    functions=_KERNELS,
+    bounded=True,
+    level="other",
+    level_text=("Deductive (unbounded): window_at_index returns exactly the in-sequence elements at distance 1..radius in order of increasing distance "
+                "(both orientations; it reads one sequence only, so windows cannot cross a boundary); each kernel returns one weight per context, zero "
+                "before the offset and at masked contexts and the base weight (1, 1/(j+1)) elsewhere; fixed radii table = radius everywhere, 0 at the "
+                "mask. Bounded: the assembled matrix (event emission in numba_build_skip_grams, block offsets, column naming, window normalisation, "
+                "timestamps) against an independent float64 reference of the definition on enumerated small corpora x a 2880-configuration grid (sampled)."),
+    level_note="Trusted: pyvc, z3, numpy contracts (flipud/arange/mask assignment), floats as reals, pow uninterpreted. The event-emission kernels are not yet under contract.",
+    technique=_TECH, explanation="see level_text",
+)
+PROPS["C04"] = dict(
+    functions=_COO,
+    bounded=True,
+    level="other",
+    level_text=("Deductive (unbounded, for every buffer size N >= 2 and every value of COO_QUICKSORT_LIMIT >= 1, the constant is symbolic): the accumulator's "
+                "representation invariant WF is preserved by coo_append / coo_sum_duplicates / merge_sum_duplicates / merge_all_sum_duplicates / "
+                "coo_increase_mem, every subscript and slice assignment is in range, two free slots remain after every append (so the next append "
+                "cannot overflow), growth keeps the shared fill index. ASSUMED: the run stack does not fill up (see assumptions). Bounded: conservation of "
+                "events (no event lost/duplicated/moved) over accumulator histories with tiny N and LIMIT, and API-level independence of n_threads / "
+                "coo_initial_memory / volume for the four vectorizers."),
+    level_note=("Trusted: pyvc, z3, numpy contracts (argsort is a sorting permutation, slice assignment, round). Assumption: depth[0] stays below "
+                "len(min) (true at the real LIMIT unless > LIMIT*N^2 events; false for artificially small LIMIT, observed)."),
+    technique=_TECH, explanation="see level_text",
+    assumptions=["run-stack depth assumption (contracts/coo_utils.py ROOM)"],
+)
